@@ -61,6 +61,26 @@ type Server struct {
 	RejectHello bool
 	ReplyDelay  func(tag string) time.Duration
 	conns       []net.Conn
+	subs        map[string]*connState
+	DialGate    chan struct{} // when non-nil, every dial after the first waits here (a dial in flight)
+	DialWaiting chan struct{} // signalled when a dial is parked on DialGate
+}
+
+// Publish sends n `message` pushes for channel ch to the connection that subscribed to it.
+// It returns how many frames were written before the connection stopped accepting them.
+func (s *Server) Publish(ch string, n int) int {
+	s.mu.Lock()
+	cs := s.subs[ch]
+	s.mu.Unlock()
+	if cs == nil {
+		return 0
+	}
+	for i := 0; i < n; i++ {
+		if err := s.send(cs, func(m string) string { return ">3\r\n" + bulk("message") + bulk(ch) + bulk("p"+m) }, "data", false, false, ch); err != nil {
+			return i
+		}
+	}
+	return n
 }
 
 func NewServer(seed uint64) *Server {
@@ -107,6 +127,18 @@ func (s *Server) Dial(ctx context.Context, addr string, d *net.Dialer, cfg *tls.
 	if err := ctx.Err(); err != nil {
 		return nil, err
 	}
+	s.mu.Lock()
+	gate, waiting, first := s.DialGate, s.DialWaiting, s.nconn == 0
+	s.mu.Unlock()
+	if gate != nil && !first {
+		if waiting != nil {
+			select {
+			case waiting <- struct{}{}:
+			default:
+			}
+		}
+		<-gate
+	}
 	c1, c2 := net.Pipe()
 	s.mu.Lock()
 	id := s.nconn
@@ -152,6 +184,7 @@ func readCommand(r *bufio.Reader) ([]string, error) {
 }
 
 type connState struct {
+	wmu     sync.Mutex // serialises frames of the serve loop and of Publish
 	id      int
 	w       *bufio.Writer
 	inMulti bool
@@ -172,6 +205,8 @@ func (s *Server) send(cs *connState, build func(mid string) string, kind string,
 	frame := build(strconv.Itoa(mid))
 	s.log(Event{Conn: cs.id, Kind: "m", Mid: mid, MKind: kind, Pong: pong, Queued: queued, Tag: tag})
 	s.mu.Unlock()
+	cs.wmu.Lock()
+	defer cs.wmu.Unlock()
 	if _, err := cs.w.WriteString(frame); err != nil {
 		return err
 	}
@@ -312,6 +347,14 @@ func (s *Server) serve(id int, conn net.Conn) {
 		// ---- pub/sub families
 		switch name {
 		case "SUBSCRIBE", "PSUBSCRIBE", "SSUBSCRIBE":
+			s.mu.Lock()
+			if s.subs == nil {
+				s.subs = map[string]*connState{}
+			}
+			for _, ch := range argv[1:] {
+				s.subs[ch] = cs
+			}
+			s.mu.Unlock()
 			for i, ch := range argv[1:] {
 				s.send(cs, fixed(">3\r\n"+bulk(strings.ToLower(name))+bulk(ch)+fmt.Sprintf(":%d\r\n", i+1)), "sub", false, false, ch)
 			}
